@@ -32,7 +32,8 @@ import (
 //	   least what the child reports as used;
 //	L6 due is true when used is beyond a soft limit or a stop was requested in the
 //	   context (or inherited), false when used is below every soft limit and none was;
-//	L7 the iterations executed in the whole program never exceed the outermost CPU limit.
+//	L7 the iterations executed in the whole program never exceed the outermost CPU limit;
+//	L8 where a memory limit (hard or soft, own or inherited) is in force, an allocation moves used.memory.
 
 func init() {
 	core.Register(&core.Engine{Name: "ctxlua", Run: runCtxLua})
@@ -150,7 +151,7 @@ func (g *clGen) node(parent, depth int) {
 		case 0:
 			g.ln(`work(%d)`, []int{10, 100, 600, 3000}[t.Choose(4)])
 		case 1:
-			g.ln(`keep[#keep + 1] = ("x"):rep(%d)`, []int{100, 1500, 9000}[t.Choose(3)])
+			g.ln(`do local c = runtime.context() local m0 = c.used.memory keep[#keep + 1] = ("x"):rep(%d) emit("alloc", %d, %[1]d, m0, c.used.memory, c.kill.memory, c.stop.memory) end`, []int{100, 1500, 9000}[t.Choose(3)], id)
 		case 2:
 			g.ln(`do local c = runtime.context() local u0, m0 = c.used.cpu, c.used.memory local d, d2 = c.due, runtime.contextdue() local u1, m1 = c.used.cpu, c.used.memory emit("due", %d, d, d2, u0, u1, m0, m1, c.stop.cpu, c.stop.memory) end`, id)
 		case 3:
@@ -261,7 +262,10 @@ func runCtxLua(ctx *core.RunCtx) {
 	g.ln(`emit("end", acc)`)
 	src := g.b.String()
 	rootCPU := []uint64{3000, 30000, 300000}[ctx.Gen.Choose(3)] + uint64(ctx.Gen.Choose(97))
-	rootMem := []uint64{200000, 5000000}[ctx.Gen.Choose(2)] + uint64(ctx.Gen.Choose(97))
+	rootMem := []uint64{200000, 5000000, 0}[ctx.Gen.Choose(3)] + uint64(ctx.Gen.Choose(97))
+	if rootMem < 100 {
+		rootMem = 0 // no hard memory limit at the top: soft limits further in are then the only reason to count memory
+	}
 	ctx.Sample = fmt.Sprintf("-- root kill={cpu=%d, memory=%d}\n%s", rootCPU, rootMem, src)
 
 	s := core.NewSched(ctx.Sch, 0)
@@ -440,6 +444,23 @@ func runCtxLua(ctx *core.RunCtx) {
 			if kmOK && um >= km {
 				fail("L5", "used-reaches-kill:memory", "context %d: used.memory=%d >= kill.memory=%d: %s", id, um, km, e)
 				return
+			}
+		case "alloc":
+			// L8: where a memory limit (hard or soft, own or inherited) is in force, allocation is accounted
+			if len(f) < 8 {
+				continue
+			}
+			nb, _ := num(3)
+			m0, _ := num(4)
+			m1, _ := num(5)
+			_, hasKill := num(6)
+			_, hasStop := num(7)
+			if hasKill || hasStop {
+				ctx.Count("allocations checked against the accounting", 1)
+				if m1 < m0+nb {
+					fail("L8", "allocation-not-accounted", "context %d has a memory limit in force but building a %d-byte string moved used.memory from %d to %d only: %s", id, nb, m0, m1, e)
+					return
+				}
 			}
 		case "stopreq":
 			stopSeen[id] = true
